@@ -9,5 +9,6 @@ CONSTANTS
   Secrets <- S12
   Questions <- Q01
   AllowEnd = TRUE
+  MaxRequery = 0
 INVARIANTS EmitLong40
 CHECK_DEADLOCK FALSE
